@@ -73,6 +73,32 @@ def make_views(b, desc: Desc, obs) -> list:
     return views
 
 
+SETTLE_TIMEOUT_S = 40
+
+
+class _Unsettled(Exception):
+    pass
+
+
+def _with_watchdog(seconds: int, fn, *args):
+    """run `fn(*args)` under a SIGALRM watchdog (main thread of the worker process)"""
+    import signal
+
+    def onalarm(signum, frame):
+        raise _Unsettled()
+
+    try:
+        old = signal.signal(signal.SIGALRM, onalarm)
+    except ValueError:  # not in the main thread: no watchdog
+        return fn(*args)
+    signal.alarm(seconds)
+    try:
+        return fn(*args)
+    finally:
+        signal.alarm(0)
+        signal.signal(signal.SIGALRM, old)
+
+
 def eval_design(design: dict, pid: str, n_random: int, only_vals: Optional[list] = None, max_patterns: Optional[int] = None) -> dict:
     """run the REAL code on one abstract design; returns lines for the Lean driver, the
     implementation's observation lines, the verdict of `pid`'s monitor and statistics"""
@@ -92,6 +118,7 @@ def eval_design(design: dict, pid: str, n_random: int, only_vals: Optional[list]
         "exhaustive": False,
         "names": {str(k): v for k, v in b.name_of.items()},
     }
+    out["aux"] = _exclusivity_crosscheck(b, desc)
     if pid == "C11":
         v = mon_c11(desc, b.reject, design.get("inject"))
         if v:
@@ -103,7 +130,13 @@ def eval_design(design: dict, pid: str, n_random: int, only_vals: Optional[list]
         vals, exh = only_vals, False
     else:
         vals, exh = simcore.valuations(widths, random.Random(design.get("vseed", 0)), n_random, max_patterns)
-    obs = simcore.simulate(b, vals)
+    try:
+        obs = _with_watchdog(SETTLE_TIMEOUT_S + len(vals) // 50, simcore.simulate, b, vals)
+    except _Unsettled:
+        # the real circuit does not settle: a combinational loop through run/ready signals.  The model
+        # evaluates the same equations in one pass, so this is a divergence of corr:core (and C10's business).
+        out["aux"] = f"pysim did not settle within {SETTLE_TIMEOUT_S}s on the first valuations: combinational loop in the generated logic?"
+        return out
     out["nvals"] = len(vals)
     out["exhaustive"] = exh
     out["lean_in"] += [simcore.lean_line(o) for o in obs]
@@ -118,6 +151,31 @@ def eval_design(design: dict, pid: str, n_random: int, only_vals: Optional[list]
             out["viol_val"] = vals[k]
             out["viol_obs"] = out["impl_out"][k + 1]
     return out
+
+
+def _exclusivity_crosscheck(b, desc: Desc) -> Optional[str]:
+    """The monitors decide exclusivity from tree positions (analysis.diff_alts), the manager from
+    `CtrlPath.exclusive_with` on the paths recorded by `CtrlPathBuilder`.  On every pair of call
+    sites / body definitions of every generated design the two must coincide (this ties the
+    independent notion of the monitors to the real code; a mismatch is reported as a divergence of
+    the correspondence `corr:ctrl-positions`)."""
+    from .analysis import diff_alts
+
+    sites = b.top.sites
+    ids = sorted(sites)
+    for i, x in enumerate(ids):
+        px = sites[x].call_tuple[0]
+        for y in ids[i + 1 :]:
+            real = px.exclusive_with(sites[y].call_tuple[0])
+            if real != diff_alts(desc.sites[x].pos, desc.sites[y].pos):
+                return f"call sites {x},{y}: exclusive_with={real} but tree positions say {not real} ({px} / {sites[y].call_tuple[0]})"
+    names = sorted(n for n in b.top.bodies if n in desc.bodies)
+    for i, x in enumerate(names):
+        for y in names[i + 1 :]:
+            real = b.top.bodies[x].ctrl_path.exclusive_with(b.top.bodies[y].ctrl_path)
+            if real != diff_alts(desc.bodies[x].pos, desc.bodies[y].pos):
+                return f"bodies {x},{y}: exclusive_with={real} but tree positions say {not real}"
+    return None
 
 
 def gen_for(pid: str, index: int, seed: int, tier: str) -> dict:
@@ -238,6 +296,20 @@ def witness_designs(kind: str) -> list[dict]:
                 "nsites": 2, "tag": "witness", "inject": None, "vseed": 1,
             })
         return out
+    if kind == "alias_relation":  # F-core1-1: relation declared ON a provide()-alias
+        out = []
+        for rel in ({"k": "conflict", "a": "al", "b": "m1", "prio": "U"}, {"k": "conflict", "a": "al", "b": "t1", "prio": "L"}):
+            out.append({
+                "inputs": {"r0": 1, "r1": 1},
+                "methods": [{"ref": r, "iw": 0, "ow": 0, "owner": 0, "group": None} for r in ("m0", "m1", "al")],
+                "groups": [],
+                "modules": [{"name": "mod0", "block": [_leaf("m0"), _leaf("m1"), {"k": "provide", "ref": "al", "target": "m0"},
+                             {"k": "trans", "name": "t0", "ready": "r0", "block": [_mcall(0, "al")]},
+                             {"k": "trans", "name": "t1", "ready": "r1", "block": [_mcall(1, "m1")]}]}],
+                "relations": [rel],
+                "nsites": 2, "tag": "witness", "inject": None, "vseed": 1,
+            })
+        return out
     raise KeyError(f"unknown witness kind {kind}")
 
 
@@ -262,7 +334,7 @@ def run_core(ctx: Check, pid: str, n_quick: int = 110, n_thorough: int = 3000):
         for k in range(4):
             try:
                 # theorems deriving the static hypotheses of the Props theorems from the executable `elaborate`
-                extra = ["TxV.Core.BridgeC01"] if pid in ("C01", "C02", "C05", "C08", "C11") and (LEAN / "TxV/Core/BridgeC01.lean").exists() else []
+                extra = ["TxV.Core.BridgeC01"] if pid in ("C01", "C02", "C05", "C07", "C08", "C11") and (LEAN / "TxV/Core/BridgeC01.lean").exists() else []
                 ctx.proof_stage(extra_modules=extra)
                 break
             except InfraError as e:
@@ -348,6 +420,9 @@ def run_core(ctx: Check, pid: str, n_quick: int = 110, n_thorough: int = 3000):
         if len(ctx.samples) < 3 and r["nvals"]:
             ctx.sample({"design_id": r["design"].get("id"), "tag": r["design"].get("tag"), "summary": r["impl_out"][0],
                         "valuation_lines": r["lean_in"][1:4], "impl": r["impl_out"][1:4]})
+        if d is None and r.get("aux"):
+            d = 0
+            mo = [f"corr:ctrl-positions: {r['aux']}"]
         if d is None:
             ctx.traces_validated += 1
             continue
